@@ -430,7 +430,12 @@ fn random_config(r: &mut impl Rng, deg: usize, n_bits: usize, strong: bool) -> V
     let cap = r.gen::<usize>() % (lde.min(4) + 1);
     let room = lde - cap;
     let strategy = match r.gen::<usize>() % 4 {
-        0 => json!(["const", 1 + r.gen::<usize>() % 3, r.gen::<usize>() % 6]),
+        0 => {
+            // ConstantArityBits(a, f) is admissible for every degree only if f >= a - 1 (FriReductionStrategy asserts
+            // degree_bits >= arity_bits while degree_bits > final_poly_bits)
+            let a = 1 + r.gen::<usize>() % 3;
+            json!(["const", a, a - 1 + r.gen::<usize>() % (7 - a)])
+        }
         1 => json!(["const", 4, 5]),
         2 => {
             let mut left = room.min(n_bits);
@@ -623,8 +628,24 @@ fn tamper_one<const N: usize, const NPI: usize>(case: &Value, out: &mut Out, sam
     let bits = binding_bits(&config);
     let tried = std::cell::Cell::new(0u64);
     let mut generic_seen = std::collections::BTreeSet::new();
+    // a mutation that leaves every field element unchanged modulo p (the prover may emit the non-canonical
+    // representation p of 0) is not a modification of the proof
+    fn canon_json(v: &Value) -> Value {
+        match v {
+            Value::Number(n) => n.as_u64().map(|x| json!(x % P)).unwrap_or_else(|| v.clone()),
+            Value::Array(a) => Value::Array(a.iter().map(canon_json).collect()),
+            Value::Object(o) => Value::Object(o.iter().map(|(k, x)| (k.clone(), canon_json(x))).collect()),
+            _ => v.clone(),
+        }
+    }
+    let base_canon = canon_json(&base);
+    let noncanonical = std::cell::Cell::new(0u64);
     let mut check = |mutated: Value, what: String, gpath: String, out: &mut Out| {
         if mutated == base {
+            return;
+        }
+        if canon_json(&mutated) == base_canon {
+            noncanonical.set(noncanonical.get() + 1);
             return;
         }
         tried.set(tried.get() + 1);
@@ -711,7 +732,7 @@ fn tamper_one<const N: usize, const NPI: usize>(case: &Value, out: &mut Out, sam
         check(m, format!("toggle@.proof.openings.{key}"), format!(".proof.openings.{key}"), out);
     }
     let _ = options;
-    json!({"shape": shape, "config": case["config"], "binding_bits": bits, "positions": leaves.len(), "arrays": arrays.len(), "mutations": tried.get(),
+    json!({"shape": shape, "config": case["config"], "binding_bits": bits, "positions": leaves.len(), "arrays": arrays.len(), "mutations": tried.get(), "skipped_same_field_elements": noncanonical.get(),
            "generic_paths": generic_seen.len()})
 }
 fn super_get<'a>(v: &'a Value, p: &[Seg]) -> &'a Value {
